@@ -504,6 +504,23 @@ class Evaluator:
     return T('reduce', bv.args[0], xs)
 
   def exec_while(self, s, scope):
+    # iterations whose test is decided (a work list that is popped until empty, a small counter) are executed one by one;
+    # whatever is left when the test stops being decidable is the abstract loop from that state
+    for _ in range(self.unroll):
+      d = self.decide(self.ev(s.test, scope))
+      if d is False:
+        self.exec_block(s.orelse, scope)
+        return
+      if d is not True:
+        break
+      self.loop_ctl.append([])
+      st = self.exec_block(s.body, scope)
+      pend = self.loop_ctl.pop()
+      self._merge_pending(scope, pend)
+      if st == 'brk':
+        return
+      if st is True:
+        return True
     lid = self.new_id('W')
     assigned = self._assigned_names(s.body)
     inits = {}
@@ -584,10 +601,31 @@ class Evaluator:
           return T('star', (e.args[0] if e.op == 'star' else e), dom)
         elts = [wrap(e) for e in elts]
       new = T('list', *(cur.args + tuple(elts)))
+    elif meth == 'update' and len(args) == 1 and self._update_as_stores(cur, args[0]) is not None:
+      new = self._update_as_stores(cur, args[0])        # d.update({k: v, ..}) is d[k] = v; ..
     else:
       new = T('mut', cur, meth, tuple(args), self.new_id('m'))
     self.assign(tgt, new, scope, quiet=True)
     return True
+
+  def _update_as_stores(self, cur, arg):
+    def pairs(t):
+      if t.op == 'dict' and all(is_const(k) for k, _ in t.args):
+        return list(t.args)
+      if t.op == 'store' and is_const(t.args[1]):
+        inner = pairs(t.args[0])
+        return None if inner is None else inner + [(t.args[1], t.args[2])]
+      return None
+    if arg.op == 'ite':
+      a, b = self._update_as_stores(cur, arg.args[1]), self._update_as_stores(cur, arg.args[2])
+      return None if a is None or b is None else ite(arg.args[0], a, b)
+    ps = pairs(arg)
+    if ps is None:
+      return None
+    out = cur
+    for k, v in ps:
+      out = T('store', out, k, v)
+    return out
 
   def _loop_guard_segments(self):
     """lid -> path conditions met between that loop's entry and the next nested loop's entry."""
@@ -1148,7 +1186,10 @@ class Evaluator:
 
       def is_all(t):
         return t.op == 'slice' and all(is_const(x, None) for x in t.args)
-      if is_rev(idx):
+      def arrayish(t):      # evidently an array (a python list reversed by [::-1] keeps its own form)
+        return (t.op == 'call' and t.args[0].op == 'ext' and t.args[0].args[0].split('.')[0] in ('jax', 'numpy')) or t.op in ('bin', 'un') or \
+            (t.op == 'sub' and arrayish(t.args[0]))
+      if is_rev(idx) and arrayish(base):
         return self.call(ext('jax.numpy.flip'), [base], {}, n, None)
       if idx.op == 'tuple' and idx.args and is_rev(idx.args[-1]) and all(is_all(t) for t in idx.args[:-1]) and len(idx.args) >= 2:
         return self.call(ext('jax.numpy.flip'), [base], {'axis': const(len(idx.args) - 1)}, n, None)
@@ -1737,6 +1778,8 @@ class Evaluator:
           return const(isinstance(cval(x), getattr(_builtins, cn, ())) if isinstance(getattr(_builtins, cn, None), type) else False)
         if x.op in ('rec', 'obj', 'closure', 'enum'):
           return FALSE
+        if x.op in ('ext', 'partial', 'bound', 'fn', 'vmapped') and cn in ('str', 'int', 'float', 'bool', 'list', 'tuple', 'dict', 'set', 'bytes'):
+          return FALSE            # a function object is none of the data types
         if x.op == 'call' and x.args[0].op == 'ext' and x.args[0].args[0].split('.')[0] in ('jax', 'numpy') and cn in ('list', 'tuple', 'dict', 'set', 'str'):
           return FALSE
         if x.op == 'bin' and cn in ('list', 'tuple', 'dict', 'set') and x.args[1].op not in ('list', 'tuple', 'mut', 'phi') and x.args[2].op not in ('list', 'tuple', 'mut', 'phi'):
